@@ -321,9 +321,10 @@ class Interp:
         if isinstance(base, (types.ModuleType, type, types.SimpleNamespace)):
             if key in self.models:
                 return self.models[key]
-            alt = "time." + attr  # a stubbed 'time' namespace (SimpleNamespace has no __name__)
-            if isinstance(base, types.SimpleNamespace) and alt in self.models:
-                return self.models[alt]
+            if isinstance(base, types.SimpleNamespace):  # a stubbed 'time' / 'datetime' namespace has no __name__
+                for alt in ("time." + attr, "datetime." + attr):
+                    if alt in self.models:
+                        return self.models[alt]
         if isinstance(base, Obj):
             if attr in base._attrs:
                 return base._attrs[attr]
